@@ -139,6 +139,8 @@ class HistoryRunner:
                 self.expect(k, op, ia, exp, "result")
             elif kind == "clear":
                 s, e = op[1], op[2]
+                if s >= spec.length:
+                    continue        # outside the property's quantifier (start < length)
                 for i in range(s, min(e, spec.length)):
                     spec.cleared.add(i)
                 ia, _ = p.do("clear W %d %d" % (s, e))
